@@ -97,6 +97,20 @@ def enum_source(repo: Repo, src: T, py311: bool = True):
 def find_sites(repo: Repo, interp: sym.Interp) -> List[Site]:
     sites: List[Site] = []
     seen = set()
+    # a generic helper (`def _decode_flags(enum_cls, value): return [m for m in enum_cls if m.value & value]`) iterates over
+    # its parameter: its loop is a selection site of every function that calls it with an enum class, seen there
+    generic = set()
+    for mod in repo.modules.values():
+        if not mod.name.startswith(TH):
+            continue
+        for fn in mod.functions.values():
+            rec = interp.run(mod, fn)
+            for lr in rec.loops.values():
+                if lr.func.split(".")[-1] != fn.name:
+                    continue
+                it = lr.term.a[2][0][1] if (lr.kind == "comp" and lr.term is not None and len(lr.term.a[2]) == 1) else lr.iter
+                if it is not None and sym.root_of(it).op == "param":
+                    generic.add((lr.func, lr.lineno))
     for mod in repo.modules.values():
         if not mod.name.startswith(TH):
             continue
@@ -106,11 +120,18 @@ def find_sites(repo: Repo, interp: sym.Interp) -> List[Site]:
         for ci, fn in units:
             rec = interp.run(mod, fn, self_cls=ci)
             qn = f"{ci.name}.{fn.name}" if ci else fn.name
+
+            called = {n.id for n in ast.walk(fn) if isinstance(n, ast.Name)} | \
+                {n.attr for n in ast.walk(fn) if isinstance(n, ast.Attribute)}
+
+            def here(lr):
+                """the loop runs in this function's own frame, or in a generic helper this function calls itself"""
+                return lr.func.split(".")[-1] == fn.name or ((lr.func, lr.lineno) in generic and lr.func.split(".")[-1] in called)
             # comprehension sites evaluated in this function's own frame (not in an inlined callee)
             for lid, lr in rec.loops.items():
-                if lr.kind != "comp" or lr.term is None or lr.func.split(".")[-1] != fn.name or len(lr.term.a[2]) != 1:
+                if lr.kind != "comp" or lr.term is None or not here(lr) or len(lr.term.a[2]) != 1:
                     continue
-                key = ("comp", lr.func, lr.lineno, sym.canon(lr.term))
+                key = ("comp", lr.func if lr.func.split(".")[-1] == fn.name else qn + "<-" + lr.func, lr.lineno, sym.canon(lr.term))
                 if key in seen:
                     continue
                 seen.add(key)
@@ -119,9 +140,9 @@ def find_sites(repo: Repo, interp: sym.Interp) -> List[Site]:
                 sites.append(Site(qn, mod.name, lr.lineno, it, elemvar, [([(c, True) for c in conds], x.a[1])]))
             # loop sites: for loops whose body appends / adds the element under conditions
             for lid, lr in rec.loops.items():
-                if lr.kind != "for" or lr.func.split(".")[-1] != fn.name or lr.iter is None:
+                if lr.kind != "for" or not here(lr) or lr.iter is None:
                     continue
-                key = ("loop", lr.func, lr.lineno)
+                key = ("loop", lr.func if lr.func.split(".")[-1] == fn.name else qn + "<-" + lr.func, lr.lineno)
                 if key in seen:
                     continue
                 seen.add(key)
@@ -164,6 +185,8 @@ def pe(t: T, elem: T, value: int, name: str) -> T:
                 f = sym._fold_bin(y.a[0], y.a[1].a[0], y.a[2].a[0])
                 if f is not None:
                     return const(f)
+            if y.op == "bin" and y.a[0] == "&" and const(0) in (y.a[1], y.a[2]):
+                return const(0)             # 0 & word: the member without bits never matches
             if y.op == "cmp" and y.a[1].op == "const" and y.a[2].op == "const":
                 f = sym._fold_cmp(y.a[0], y.a[1].a[0], y.a[2].a[0])
                 if f is not None:
@@ -211,8 +234,41 @@ def residual_of(conds, elem: T, value: int, name: str) -> Residual:
     if not rest:
         return Residual("true")
     if len(rest) > 1:
+        # "the word is not zero" adds nothing to a positive test of one of its bits (an early `if word == 0: return ...`
+        # followed by the bit loop)
+        def nonzero_of(r_, p_):
+            while r_.op == "not":
+                r_, p_ = r_.a[0], not p_
+            if r_.op == "cmp" and r_.a[0] in ("==", "!=") and const(0) in (r_.a[1], r_.a[2]):
+                x = r_.a[1] if r_.a[2] == const(0) else r_.a[2]
+                return x if (r_.a[0] == "!=") == p_ else None
+            return r_ if p_ and r_.op in ("param", "attr", "sub", "bound") else None
+
+        def bit_word(r_, p_):
+            while r_.op == "not":
+                r_, p_ = r_.a[0], not p_
+            if p_ and r_.op == "bin" and r_.a[0] == "&":
+                return {r_.a[1], r_.a[2]}
+            return set()
+        words = set()
+        for r_, p_ in rest:
+            words |= bit_word(r_, p_)
+        rest = [(r_, p_) for r_, p_ in rest if not (nonzero_of(r_, p_) is not None and nonzero_of(r_, p_) in words)]
+    if len(rest) > 1:
         return Residual("unknown")
     r, pol = rest[0]
+    # not (x) / bool(x) / x != 0 / x == 0 around a bit test: the same test, possibly with the opposite polarity
+    while True:
+        if r.op == "not":
+            r, pol = r.a[0], not pol
+        elif r.op == "call" and r.a[0] == T("builtin", ("bool",)) and len(r.a[1]) == 1 and not r.a[2]:
+            r = r.a[1][0]
+        elif r.op == "cmp" and r.a[0] in ("!=", "==", ">") and const(0) in (r.a[1], r.a[2]) and \
+                (r.a[1] if r.a[2] == const(0) else r.a[2]).op == "bin" and (r.a[0] != ">" or r.a[2] == const(0)):
+            inner = r.a[1] if r.a[2] == const(0) else r.a[2]
+            r, pol = inner, (pol if r.a[0] in ("!=", ">") else not pol)
+        else:
+            break
     if sym.contains(r, elem):
         return Residual("unknown")
     # word & c   (either order)
@@ -259,8 +315,9 @@ def check(repo: Repo, run: Run) -> None:
                 unknown.append(f"{ci.name}.{name}")
     for cname in ("S_IFMT",):
         bsd = repo.module("trace_handlers.bsd")
-        if cname in bsd.constants:
-            v = consteval.evaluate(repo, bsd, bsd.constants[cname])
+        cfound = repo.lookup(f"{bsd.name}.{cname}")
+        if cfound and cfound[0] == "const":
+            v = consteval.evaluate(repo, cfound[1], cfound[2])
             run.ob("R1", bsd.name, "constants", cname, v == darwin.ALL[cname],
                    f"{cname} = {v!r} but Darwin defines {darwin.ALL[cname]:#o}", facts={"value": v})
     run.analysed.update({"enum_members_with_reference": n_known, "enum_members_without_reference": n_unknown})
@@ -560,7 +617,7 @@ def check_ioctl(repo: Repo, run: Run, interp) -> None:
     bsd = repo.module("trace_handlers.bsd")
     ci = repo.cls("trace_handlers.bsd", "BscIoctl")
     req = T("attr", (sym.param("self"), "request"))
-    rec = interp.run(bsd, ci.methods["__str__"], self_cls=ci)
+    rec = interp.run(ci.module, ci.methods["__str__"], self_cls=ci)
     segs = render.flatten(rec.return_term())
     holes = []
     for _, flat in render.variants(segs):
@@ -615,7 +672,8 @@ def check_ioctl(repo: Repo, run: Run, interp) -> None:
            f"the four ioctl fields leave bits {0xffffffff ^ union:#x} undecoded", nontrivial=False)
     # direction table
     tbl_name = params_t.a[0].a[0].rsplit(".", 1)[-1]
-    tbl = consteval.evaluate(repo, bsd, bsd.constants.get(tbl_name))
+    tfound = repo.lookup(params_t.a[0].a[0])
+    tbl = consteval.evaluate(repo, tfound[1], tfound[2]) if tfound and tfound[0] == "const" else None
     if not isinstance(tbl, dict):
         raise AnalysisError(f"direction table {tbl_name} is not a dict literal")
     for key, names in ((darwin.IOC["IOC_VOID"], ("IOC_VOID",)), (darwin.IOC["IOC_OUT"], ("IOC_OUT",)),
